@@ -195,8 +195,17 @@ class NonTermination(ShapeError):
 
 
 class _Raise(Exception):
-    def __init__(self, what):
+    def __init__(self, what, classes=None):
         self.what = what
+        self.classes = tuple(classes) if classes else None  # names of the raised class and its bases, when known
+
+    @staticmethod
+    def of(exc, where=""):
+        """a Python exception raised while folding a pure library function on constants"""
+        return _Raise(f"{type(exc).__name__} in {where}: {str(exc)[:60]}", [c.__name__ for c in type(exc).__mro__])
+
+    def __str__(self):
+        return self.what
 
 
 # ---------------------------------------------------------------------------
@@ -219,7 +228,9 @@ ADAPTER_SHAPE = {
 def shape_of_con(con, path=()):
     core, chain = unwrap(con)
     k = core.kind
-    if k == "struct":
+    if k == "fixedsized":
+        base = shape_of_con(core.sub, path)  # a byte window around the sub-construct: same value
+    elif k == "struct":
         items = OrderedDict()
         for f in core.fields:
             if f.kind == "renamed":
@@ -1077,7 +1088,7 @@ class Interp:
         if isinstance(st, ast.Pass):
             return
         if isinstance(st, ast.Raise):
-            raise _Raise(short(st, 50))
+            raise _Raise(short(st, 50), self.exception_classes(st.exc, sc))
         if isinstance(st, (ast.Import, ast.ImportFrom)):
             return
         if isinstance(st, ast.Try):
@@ -1086,10 +1097,13 @@ class Interp:
             self.assumptions.add("try statements: shapes follow the path on which the protected block does not raise")
             try:
                 self.exec_block(st.body, sc, yields)
-            except _Raise:
-                if not st.handlers:
+            except _Raise as ex:
+                h = self.matching_handler(st.handlers, ex, sc)
+                if h is None:
                     raise
-                self.exec_block(st.handlers[0].body, sc, yields)
+                if h.name:
+                    sc.vars[h.name] = Obj("Exception", OrderedDict(args=TupS([Const(ex.what)]), classes=Const(ex.classes)))
+                self.exec_block(h.body, sc, yields)
             else:
                 self.exec_block(st.orelse, sc, yields)
             finally:
@@ -1097,6 +1111,58 @@ class Interp:
                     self.exec_block(st.finalbody, sc, yields)
             return
         raise ShapeError(f"statement outside the modelled fragment: {short(st, 60)}")
+
+    def exception_classes(self, exc, sc):
+        """names of the class an expression raises, with its bases (builtins by their MRO, repo classes by their base list)"""
+        if exc is None:
+            return None
+        e = exc.func if isinstance(exc, ast.Call) else exc
+        if isinstance(e, ast.Name):
+            v = sc.lookup(e.id)
+            if isinstance(v, Obj) and v.cls == "Exception" and isinstance(v.fields.get("classes"), Const):
+                return v.fields["classes"].v  # re-raise of a caught exception object
+        name = e.id if isinstance(e, ast.Name) else e.attr if isinstance(e, ast.Attribute) else None
+        if name is None:
+            return None
+        import builtins
+        b = getattr(builtins, name, None)
+        if isinstance(b, type) and issubclass(b, BaseException):
+            return [c.__name__ for c in b.__mro__]
+        owner = sc
+        while owner.parent is not None:
+            owner = owner.parent
+        mod = owner.owner.module if isinstance(owner.owner, FuncInfo) else owner.owner
+        out, todo, seen = [], [(mod, e)], 0
+        while todo and seen < 12:
+            m, x = todo.pop(0)
+            seen += 1
+            try:
+                r = self.repo.resolve_expr(m, x)
+            except Exception:
+                break
+            if r.kind == "class":
+                out.append(r.node.name)
+                todo += [(r.mod, bb) for bb in r.node.bases]
+            elif r.kind == "external":
+                nm = r.fq.split(".")[-1]
+                bb = getattr(builtins, nm, None)
+                out += [c.__name__ for c in bb.__mro__] if isinstance(bb, type) else [nm]
+        return out or [name]
+
+    def matching_handler(self, handlers, ex, sc):
+        if not handlers:
+            return None
+        if ex.classes is None:
+            return handlers[0]  # class unknown: the first handler is taken (shape inference only follows well-formed paths)
+        for h in handlers:
+            if h.type is None:
+                return h
+            types = h.type.elts if isinstance(h.type, ast.Tuple) else [h.type]
+            for t in types:
+                nm = t.id if isinstance(t, ast.Name) else t.attr if isinstance(t, ast.Attribute) else None
+                if nm in ex.classes or nm in ("Exception", "BaseException"):
+                    return h
+        return None
 
     def branch(self, st, sc, yields):
         """data-dependent if: run both arms on copies and join the results"""
